@@ -153,3 +153,37 @@ Proof.
   split; [apply reach_ok_in, fx_steps_reach; [exact R0|vm_compute; reflexivity]|].
   split; [vm_compute; congruence|]. repeat split; vm_compute; reflexivity.
 Qed.
+
+(** Non-vacuity of the late-construction steps: source (cycle 8) -> processor (cycle 8) -> sink whose input is blocked before
+    the first event.  After six events the queue is empty: the processor holds a finished part, flagged, and the source a refused one; then a second
+    sink is constructed with the processor as its upstream (key 1001): the processor's attempt is scheduled at that very instant
+    (time 16), and four events later the new sink has received the waiting part. *)
+Definition c03l_world : fw :=
+  mkFw [(1, (blank_dev KSource) <| d_down := [2] |> <| d_cycle := 8 |>);
+        (2, (blank_dev KProcessor) <| d_up := [1] |> <| d_down := [3] |> <| d_cycle := 8 |>);
+        (3, (blank_dev KSink) <| d_up := [2] |>);
+        (1001, (blank_dev KSink) <| d_live := false |>)] [] init_rs [] 10 [] [] 0.
+Definition c03l_sc : fl_scn := mkFlScn 1 1 c03l_world [] [].
+Definition c03l_s0 := fst (do_fxop c03l_sc (c03l_world, init_env) FXInit).
+Definition c03l_sb := fst (do_fxop c03l_sc c03l_s0 (FXNow (UBlock 3 true))).
+Definition c03l_s8 := fx_steps c03l_sc 6 c03l_sb.
+Definition c03l_sl := fst (do_fxop c03l_sc c03l_s8 (FXLate 1001 [2])).
+Definition c03l_se := fx_steps c03l_sc 4 c03l_sl.
+Example C03_late_nonvacuous :
+  reach_in c03l_sc c03l_se /\
+  (is_none (d_out (getd (fst c03l_s8) 2)), d_waiting_ds (getd (fst c03l_s8) 2), d_wait_since (getd (fst c03l_s8) 1001)) = (false, true, None) /\
+  (now (snd c03l_sl), d_waiting_ds (getd (fst c03l_sl) 2), d_wait_since (getd (fst c03l_sl) 1001), f_next_id (fst c03l_sl) - f_next_id (fst c03l_s8)) =
+    (16, false, Some 16, 1) /\
+  In (16, 2, Some (APassPart 2)) (map (fun e => (e_time e, e_asset e, e_act e)) (queue (snd c03l_sl))) /\
+  d_received (getd (fst c03l_se) 1001) = 1.
+Proof.
+  assert (R0 : reach_ok c03l_sc c03l_s0).
+  { apply ro_init; [vm_compute; reflexivity|]. unfold c03l_s0. vm_compute. reflexivity. }
+  assert (Rb : reach_ok c03l_sc c03l_sb).
+  { apply (ro_op c03l_sc c03l_s0 (FXNow (UBlock 3 true))); [exact R0|discriminate|]. unfold c03l_sb. vm_compute. reflexivity. }
+  assert (R8 : reach_ok c03l_sc c03l_s8) by (apply fx_steps_reach; [exact Rb|vm_compute; reflexivity]).
+  assert (Rl : reach_ok c03l_sc c03l_sl).
+  { apply (ro_op c03l_sc c03l_s8 (FXLate 1001 [2])); [exact R8|discriminate|]. unfold c03l_sl. vm_compute. reflexivity. }
+  split; [apply reach_ok_in, fx_steps_reach; [exact Rl|vm_compute; reflexivity]|].
+  split; [vm_compute; reflexivity|]. split; [vm_compute; reflexivity|]. split; [vm_compute; tauto|vm_compute; reflexivity].
+Qed.
